@@ -77,7 +77,7 @@ def rule_thresholds(ctx: Ctx, rep: Report) -> None:
     rule = "C13.thresholds"
     g = ctx.func(f"{S39}._grouped")
     cs = refusal_constraints(ctx, g)
-    rep.ob(rule, "members==threshold", any(c.subject == "len(members)" and c.op == "!=" and c.value_text == "threshold" for c in cs), g.where(), "fewer or more members than the threshold refused")
+    rep.ob(rule, "members==threshold", has(cs, "len(members)", "!=", "threshold") is not None, g.where(), "fewer or more members than the threshold refused")
     rep.ob(rule, "one_threshold_per_group", any(c.subject == "len(thresholds)" and c.op == ">" and c.value == 1 for c in cs), g.where(), "mixed member thresholds refused")
     rep.ob(rule, "distinct_member_indexes", any(c.subject == "len(set(indexes))" and c.op == "!=" for c in cs), g.where(), "duplicate member indexes refused")
     m = ctx.func(f"{S39}.master_secret_from_mnemonics")
